@@ -325,11 +325,29 @@ def _selfname(fnnode):
     return fnnode.args.args[0].arg
 
 
+class _Rename(ast.NodeTransformer):
+    def __init__(self, mapping):
+        self.mapping = mapping
+
+    def visit_Name(self, node):
+        if node.id in self.mapping:
+            return ast.copy_location(ast.Name(id=self.mapping[node.id], ctx=node.ctx), node)
+        return node
+
+
+def _helper_call(st, sn, mnames):
+    """`self.<method>(<names>)` as a statement -> (method name, [argument names])"""
+    if isinstance(st, ast.Expr) and isinstance(st.value, ast.Call) and _self_attr(st.value.func, sn) in mnames \
+            and not st.value.keywords and all(isinstance(a, ast.Name) for a in st.value.args):
+        return _self_attr(st.value.func, sn), [a.id for a in st.value.args]
+    return None
+
+
 def _mentions_self_attrs(expr, selfname):
     return {a for a in (_self_attr(n, selfname) for n in ast.walk(expr)) if a}
 
 
-def context_matcher_facts(sel):
+def _context_matcher_ast(sel):
     cls = sel.RecordContextMatcher
     src = textwrap.dedent(inspect.getsource(cls))
     cnode = ast.parse(src).body[0]
@@ -369,7 +387,29 @@ def context_matcher_facts(sel):
     eval_entry = _self_attr(ret.value.func, sn)
     reset = []                 # ordered
     dirty = set()
+    # a private helper method called as a statement (`self._reset_state(rec)`) is spliced in, one level deep
+    helpers = set()
+    flat = []
     for st in stmts[:-1]:
+        h = _helper_call(st, sn, mnames)
+        if h is not None and h[0] != eval_entry and h[0] not in ("__init__", "matches"):
+            hname, hargs = h
+            hnode = methods[hname]
+            hparams = [a.arg for a in hnode.args.args]
+            if hnode.args.vararg or hnode.args.kwarg or hnode.args.kwonlyargs or hnode.args.defaults or len(hparams) != len(hargs) + 1:
+                raise Unsupported("helper %s is called with an unexpected signature" % hname)
+            mapping = dict(zip(hparams, [sn] + hargs))
+            body = _strip_doc(hnode.body)
+            if body and isinstance(body[-1], ast.Return) and body[-1].value is None:
+                body = body[:-1]
+            for b in body:
+                if any(isinstance(n, (ast.Return, ast.Yield, ast.YieldFrom)) for n in ast.walk(b)):
+                    raise Unsupported("helper %s returns / yields" % hname)
+                flat.append(_Rename(mapping).visit(ast.parse(ast.unparse(b)).body[0]))
+            helpers.add(hname)
+        else:
+            flat.append(st)
+    for st in flat:
         for n in ast.walk(st):
             if isinstance(n, ast.Call) and _self_attr(n.func, sn) in mnames:
                 raise Unsupported("matches calls self.%s before the resets are complete (line %d)" % (_self_attr(n.func, sn), n.lineno))
@@ -401,14 +441,23 @@ def context_matcher_facts(sel):
     reset = [a for a in reset if a not in dirty]
     # evaluation methods: everything except __init__ and matches
     reads, writes = set(), set()
-    for name, fnode in methods.items():
-        if name in ("__init__", "matches"):
-            continue
+    eval_methods = [n for n in methods if n not in ("__init__", "matches")]
+    for h in list(helpers):
+        # a reset helper that evaluation also calls stays an evaluation method
+        used_elsewhere = any(
+            isinstance(n, ast.Attribute) and _self_attr(n, _selfname(methods[o])) == h
+            for o in eval_methods if o != h for n in ast.walk(methods[o]))
+        if not used_elsewhere:
+            eval_methods.remove(h)
+    for name in eval_methods:
+        fnode = methods[name]
         s2 = _selfname(fnode)
         reads |= _self_reads(fnode, s2, mnames)
         writes |= _stores_through_self(fnode, s2)
     # the entry method's argument must be derived from init-only state
     written_outside_init = set(writes) | _stores_through_self(m, sn)
+    for h in helpers:
+        written_outside_init |= _stores_through_self(methods[h], _selfname(methods[h]))
     init_only = sorted(a for a in init_attrs if a not in written_outside_init)
     arg_attrs = set()
     for a in ret.value.args:
@@ -419,7 +468,247 @@ def context_matcher_facts(sel):
     return dict(init_only=init_only, reset=reset, reads=sorted(reads), writes=sorted(writes), recname=recname, entry=eval_entry)
 
 
+# ------------------------------------------------------------------------------------------
+# observed behaviour on purpose-built probes (the ast recognisers above are the cross-check)
+
+def _probe_records():
+    import datetime as dt
+
+    from flow.record import GroupedRecord, RecordDescriptor
+    ts = dt.datetime(2020, 1, 1, tzinfo=dt.timezone.utc)
+    PA = RecordDescriptor("probe/a", [("varint[]", "il"), ("string", "s"), ("varint", "n")])
+    PB = RecordDescriptor("probe/b", [("string", "t")])
+    PA2 = RecordDescriptor("probe/a", [("string", "s"), ("string", "extra")])
+    a = PA(il=[2, 1], s="q", n=1, _generated=ts)
+    b = PB(t="q", _generated=ts)
+    a2 = PA2(s="x", extra="q", _generated=ts)
+    g = GroupedRecord("probe/g", [PB(t="z", _generated=ts)])
+    return dict(a=a, b=b, a2=a2, g=g)
+
+
+PROBE_EXPR = "any(x == 1 for x in r.il) or r.zz == 1 or Type.string == 'q' or any(f.name == 't' for f in fields('string')) or r.n == 5"
+
+
+def _equiv(x, y, depth=0):
+    """same per-record state? identity, or structurally equal containers, bound methods of the same object,
+    helper objects (TypeMatcher) around the same record"""
+    import types
+    if x is y:
+        return True
+    if type(x) is not type(y) or depth > 4:
+        return False
+    if isinstance(x, types.MethodType):
+        return x.__func__ is y.__func__ and x.__self__ is y.__self__
+    if isinstance(x, dict):
+        return list(x.keys()) == list(y.keys()) and all(_equiv(x[k], y[k], depth + 1) for k in x)
+    if isinstance(x, (list, tuple)):
+        return len(x) == len(y) and all(_equiv(p, q, depth + 1) for p, q in zip(x, y))
+    if isinstance(x, (set, frozenset)):
+        return x == y
+    if isinstance(x, (int, float, str, bytes, bool, type(None))):
+        return x == y
+    if hasattr(x, "_rec") and hasattr(y, "_rec"):
+        return x._rec is y._rec
+    return False
+
+
+def observe_matcher(sel):
+    """Run RecordContextMatcher on probe records in several orders and compare the instance state left behind with
+    the state a brand-new matcher has after the LAST record alone.
+    -> dict(init_only=[...], reset=[...], carried=[...], results_ok=bool)"""
+    import ast as _ast
+    P = _probe_records()
+    expr = compile(PROBE_EXPR, "<probe>", "eval", flags=_ast.PyCF_ONLY_AST)
+
+    def new():
+        return sel.RecordContextMatcher(expr, PROBE_EXPR)
+
+    def snap(m):
+        return dict(vars(m))
+
+    import copy as _copy
+    attrs = list(snap(new()))
+    histories = [["a", "b", "a"], ["b", "a"], ["a2", "a"], ["g", "b", "a"], ["a", "a"], ["a"], ["b"], ["a", "b"], ["a", "a2"], ["b", "g"]]
+    carried, changed = set(), set()
+    results_ok = True
+    for h in histories:
+        m = new()
+        at_init = snap(m)
+        at_init_content = {k: _copy.copy(v) for k, v in at_init.items() if isinstance(v, (dict, list, set))}
+        res = None
+        for k in h:
+            res = m.matches(P[k])
+        f = new()
+        want = f.matches(P[h[-1]])
+        if bool(res) != bool(want):
+            results_ok = False
+        sm, sf = snap(m), snap(f)
+        for a in set(sm) | set(sf):
+            if a not in attrs:
+                attrs.append(a)
+            if a not in sm or a not in sf or not _equiv(sm[a], sf[a]):
+                carried.add(a)
+                continue
+            # changed since __init__: another object, or the same container with other content
+            if a not in at_init or sm[a] is not at_init[a] or (a in at_init_content and sm[a] != at_init_content[a]):
+                changed.add(a)
+    # init-only = never differs from the state right after __init__ (same immutable value / identical object and
+    # equal content); compare against a second fresh instance to separate per-instance constants
+    init_only = [a for a in attrs if a not in changed and a not in carried]
+    reset = [a for a in attrs if a in changed and a not in carried]
+    return dict(init_only=sorted(init_only), reset=reset, carried=sorted(carried), results_ok=results_ok, attrs=attrs)
+
+
+def context_matcher_facts(sel):
+    """ast analysis cross-checked with / replaced by the observation"""
+    ob = observe_matcher(sel)
+    note = None
+    try:
+        af = _context_matcher_ast(sel)
+    except Unsupported as e:
+        af = None
+        note = str(e)
+    if not ob["results_ok"]:
+        # the result itself depends on the history on the probes: state that is carried
+        ob["carried"] = sorted(set(ob["carried"]) | {"<result>"})
+    if af is not None:
+        for a in ob["carried"]:
+            if a in af["reset"]:
+                raise Unsupported("matches resets self.%s by the source, but on the probes it keeps state of earlier records" % a)
+        for a in af["reset"]:
+            if a in ob["init_only"] and a in ob["attrs"] and a == "data":
+                raise Unsupported("matches resets self.data by the source, but on the probes it never changes")
+        # anything observed to be carried is a write the next call does not undo
+        af["writes"] = sorted(set(af["writes"]) | set(ob["carried"]))
+        af["note"] = None
+        return af
+    # source shape not recognised: the observation decides.  Every instance attribute is either unchanged since
+    # __init__ or equals a brand-new matcher's after the same record; conservatively, evaluation reads and writes all
+    # of the others.
+    others = [a for a in ob["attrs"] if a not in ob["init_only"]]
+    return dict(init_only=ob["init_only"], reset=ob["reset"], reads=sorted(ob["attrs"]), writes=sorted(set(others) | set(ob["carried"])),
+                recname="?", entry="?", note="shape of RecordContextMatcher.matches not recognised (%s): observed behaviour on probe "
+                                               "histories used" % note)
+
+
+def observe_selector_match(sel):
+    """-> reuses (bool); raises Unsupported when the behaviour on the probes is not that of
+    `<one matcher per Selector or per call>.matches(record)`"""
+    import ast as _ast
+    P = _probe_records()
+    s = sel.Selector(PROBE_EXPR)
+    if s.matcher is not None:
+        raise Unsupported("Selector.__init__ creates self.matcher eagerly (observed)")
+    expr = compile(PROBE_EXPR, "<probe>", "eval", flags=_ast.PyCF_ONLY_AST)
+    seen = []
+    before = dict(vars(s))
+    for k in ["a", "b", "a", "g", "a2", "b", "a"]:
+        got = s.match(P[k])
+        want = sel.RecordContextMatcher(expr, PROBE_EXPR).matches(P[k])
+        if type(got) is not type(want) or got != want:
+            raise Unsupported("Selector.match(%s probe) is not what a new matcher answers (observed)" % k)
+        seen.append(s.matcher)
+    after = dict(vars(s))
+    extra = sorted(set(after) - set(before))
+    if extra:
+        raise Unsupported("Selector.match creates new instance state %s (observed)" % extra)
+    for a in before:
+        if a != "matcher" and after[a] is not before[a]:
+            raise Unsupported("Selector.match rebinds self.%s (observed)" % a)
+    if any(m is None or type(m) is not sel.RecordContextMatcher for m in seen):
+        return False
+    return all(m is seen[0] for m in seen)
+
+
+def observe_compiled_match(sel):
+    """-> copied (bool): after matches that bind names while evaluating, self.ns is the same dict with the same
+    bindings as before"""
+    P = _probe_records()
+    c = sel.CompiledSelector("[(probe_name := r.s), (lower := upper)][0] == 'q' or r.zz == 1")
+    ns_obj = c.ns
+    before = dict(c.ns)
+    vars_before = dict(vars(c))
+    for k in ["a", "b", "a2", "a"]:
+        c.match(P[k])
+    same = c.ns is ns_obj and list(c.ns.keys()) == list(before.keys()) and all(c.ns[k] is before[k] for k in before)
+    vars_after = dict(vars(c))
+    if set(vars_after) != set(vars_before) or any(vars_after[a] is not vars_before[a] for a in vars_before):
+        return False
+    e = sel.CompiledSelector("")
+    nsb = dict(e.ns)
+    if e.match(P["a"]) is not True or dict(e.ns) != nsb:
+        return False
+    return same
+
+
+def observe_record_writes(sel):
+    """Match probe records with both engines while every attribute store / delete on a record is logged."""
+    from flow.record import base
+    P = _probe_records()
+    log = []
+    patched = []
+    for cls in (base.Record, base.GroupedRecord):
+        for nm in ("__setattr__", "__delattr__"):
+            if nm in cls.__dict__:
+                orig = cls.__dict__[nm]
+                patched.append((cls, nm, orig, True))
+            else:
+                orig = getattr(cls, nm)
+                patched.append((cls, nm, None, False))
+
+            def logged(self, *a, _orig=orig, _nm=nm, _cls=cls):
+                log.append("%s.%s(%s)" % (_cls.__name__, _nm, a[0] if a else ""))
+                return _orig(self, *a)
+            setattr(cls, nm, logged)
+    try:
+        exprs = [PROBE_EXPR, "field_contains(r, ['s', 't'], ['q']) or field_equals(r, ['s'], ['q']) or field_regex(r, ['s'], 'q')",
+                 "has_field(r, 's') and name(r) == 'probe/a' and 'probe/a' in names(r)", "lower(r.s) == 'q' or upper(r.t) == 'Q'",
+                 "'q' in Type.string or Type.varint > 0", "r.s in ['q'] and r.n not in [2]", "get_type(r.s) == 'string'"]
+        for e in exprs:
+            for mk in (sel.Selector, sel.CompiledSelector):
+                so = mk(e)
+                for k in ("a", "b", "a2", "g"):
+                    try:
+                        so.match(P[k])
+                    except Exception:  # noqa  (a raising selector is fine here; only stores are of interest)
+                        pass
+    finally:
+        for cls, nm, orig, own in patched:
+            if own:
+                setattr(cls, nm, orig)
+            else:
+                delattr(cls, nm)
+    out = []
+    for x in log:
+        if x not in out:
+            out.append(x)
+    return out
+
+
 def selector_match_facts(sel):
+    """observed on probes; the source shape is the cross-check"""
+    ob = observe_selector_match(sel)
+    try:
+        af = _selector_match_ast(sel)
+    except Unsupported as e:
+        return ob, "shape of Selector.match not recognised (%s): observed behaviour used" % e
+    if af != ob:
+        raise Unsupported("Selector.match: the source says reuse=%s, the probes say %s" % (af, ob))
+    return ob, None
+
+
+def compiled_match_facts(sel):
+    ob = observe_compiled_match(sel)
+    try:
+        af = _compiled_match_ast(sel)
+    except Unsupported as e:
+        return ob, "shape of CompiledSelector.match not recognised (%s): observed behaviour used" % e
+    if af and not ob:
+        raise Unsupported("CompiledSelector.match: the source copies self.ns, but on the probes self.ns changes")
+    return (af and ob), None
+
+
+def _selector_match_ast(sel):
     """Selector.match: [if not self.matcher: self.matcher = RecordContextMatcher(self.expression, self.expression_str)]
     then return self.matcher.matches(<arg>)  (possibly through one local).  -> reuses: bool"""
     fn = sel.Selector.match
@@ -496,7 +785,7 @@ def selector_match_facts(sel):
     return reuses
 
 
-def compiled_match_facts(sel):
+def _compiled_match_ast(sel):
     """CompiledSelector.match: optional `if self.code is None: return True`; N = self.ns.copy() (dict(self.ns),
     {**self.ns, ..}); N.update(..)/N[..] = ..; return eval(self.code, N).  -> copied: bool"""
     fn = sel.CompiledSelector.match
@@ -580,9 +869,27 @@ def record_write_sites(sel):
     def scan(fnode, selfname):
         local_fresh = set()
         for n in ast.walk(fnode):
-            if isinstance(n, ast.Assign) and len(n.targets) == 1 and isinstance(n.targets[0], ast.Name) and isinstance(
-                    n.value, (ast.List, ast.Dict, ast.Set, ast.ListComp, ast.DictComp, ast.SetComp)):
-                local_fresh.add(n.targets[0].id)
+            if isinstance(n, ast.Assign) and len(n.targets) == 1 and isinstance(n.targets[0], ast.Name):
+                v = n.value
+                fresh = isinstance(v, (ast.List, ast.Dict, ast.Set, ast.ListComp, ast.DictComp, ast.SetComp))
+                # a new container made in this function: <x>.copy(), dict(..), list(..), set(..), copy.copy(..)
+                if isinstance(v, ast.Call) and isinstance(v.func, ast.Attribute) and v.func.attr in ("copy", "deepcopy") and len(v.args) <= 1:
+                    fresh = True
+                if isinstance(v, ast.Call) and isinstance(v.func, ast.Name) and v.func.id in ("dict", "list", "set", "OrderedDict", "defaultdict"):
+                    fresh = True
+                if fresh:
+                    local_fresh.add(n.targets[0].id)
+        # a name that is also bound to something else in this function is not a local container
+        for n in ast.walk(fnode):
+            if isinstance(n, ast.Assign):
+                for t in n.targets:
+                    if isinstance(t, ast.Name) and t.id in local_fresh:
+                        v = n.value
+                        ok = isinstance(v, (ast.List, ast.Dict, ast.Set, ast.ListComp, ast.DictComp, ast.SetComp)) or (
+                            isinstance(v, ast.Call) and ((isinstance(v.func, ast.Attribute) and v.func.attr in ("copy", "deepcopy"))
+                                                         or (isinstance(v.func, ast.Name) and v.func.id in ("dict", "list", "set", "OrderedDict", "defaultdict"))))
+                        if not ok:
+                            local_fresh.discard(t.id)
         for n in ast.walk(fnode):
             tg = []
             if isinstance(n, ast.Assign):
@@ -717,15 +1024,18 @@ def gen_filter():
     out += ("\nDefinition iter_reader {R S : Type} (match_step : S -> R -> S * option bool) (k : reader_kind) (sel : option S)\n"
             "  (items : list (item R)) : list R * bool := run_loop match_step (shape_of k) sel None items.\n\n")
     cm = context_matcher_facts(sel)
-    reuses = selector_match_facts(sel)
-    copied = compiled_match_facts(sel)
+    reuses, note_sm = selector_match_facts(sel)
+    copied, note_cm = compiled_match_facts(sel)
+    for note in (cm.get("note"), note_sm, note_cm):
+        if note:
+            out += "(* note: %s *)\n" % note.replace("*)", "* )").replace("(*", "( *")
     sl = lambda xs: clist([cstr(x) for x in xs])  # noqa: E731
     out += "(* Selector.match / RecordContextMatcher (matches(%s) then self.%s) / CompiledSelector.match *)\n" % (cm["recname"], cm["entry"])
     out += ("Definition matcher : matcher_facts :=\n  {| mf_selector_reuses_matcher := %s;\n     mf_init_only := %s;\n     mf_reset_fresh := %s;\n"
             "     mf_eval_reads := %s;\n     mf_eval_writes := %s;\n     mf_compiled_ns_copied := %s |}.\n\n") % (
         cbool(reuses), sl(cm["init_only"]), sl(cm["reset"]), sl(cm["reads"]), sl(cm["writes"]), cbool(copied))
     out += "(* stores in selector.py that do not go through the method's own object or a local container *)\n"
-    out += "Definition record_write_sites : list string := %s.\n\n" % sl(record_write_sites(sel))
+    out += "Definition record_write_sites : list string := %s.\n\n" % sl(record_write_sites(sel) + ["observed: " + w for w in observe_record_writes(sel)])
     rows = make_selector_table(sel)
     out += "(* make_selector, run on every input kind x force_compiled *)\n"
     out += "Definition make_selector_table : ms_table :=\n  %s.\n" % clist(
